@@ -632,7 +632,70 @@ func ruleSER4(c *Ctx) {
 	}
 	n := errDiscipline(c, fl, map[string]string{}, isDecode)
 	c.Notes = append(c.Notes, fmt.Sprintf("SER-4 analysed %d call sites with an error result in %d module functions reachable from load/store", n, len(fl)))
-	_ = p
+	// library calls and deferred / spawned calls on the same tree: an error result must not be discarded
+	// (a buffered writer flushed in a defer reports the writer's failure only through Flush's result)
+	lib := 0
+	for _, fn := range fl {
+		for _, b := range fn.Blocks {
+			for _, in := range b.Instrs {
+				ci, ok := in.(ssa.CallInstruction)
+				if !ok {
+					continue
+				}
+				sig := ci.Common().Signature()
+				idx := errResultIndex(sig)
+				if idx < 0 {
+					continue
+				}
+				f, m := calleeOf(ci)
+				inMod := f != nil && fnInModule(f)
+				_, isDefer := in.(*ssa.Defer)
+				_, isGo := in.(*ssa.Go)
+				if inMod && !isDefer && !isGo {
+					continue // judged by the error discipline above
+				}
+				name := calleeName(ci)
+				if m != nil && f == nil {
+					name = m.FullName()
+				}
+				if why, ok := ser4DiscardOK[name]; ok {
+					c.OK(fmt.Sprintf("%s / result of %s may be dropped", fnName(fn), name), p.InstrPos(in), why)
+					continue
+				}
+				lib++
+				construct := fmt.Sprintf("%s / error of %s is not dropped", fnName(fn), name)
+				if isDefer || isGo {
+					c.Fail(construct, p.InstrPos(in), "the call is deferred/spawned, so its error result is discarded: a failure it reports (e.g. the final flush of a buffered writer) never reaches the caller of store/load")
+					continue
+				}
+				call := in.(*ssa.Call)
+				used := false
+				for _, r := range *call.Referrers() {
+					if ex, ok := r.(*ssa.Extract); ok {
+						if ex.Index == idx && len(*ex.Referrers()) > 0 {
+							used = true
+						}
+					} else if sig.Results().Len() == 1 {
+						used = true
+					}
+				}
+				c.Check(used, construct, p.InstrPos(in), "error result is consumed", "the error result of this library call is discarded on the store/load path")
+			}
+		}
+	}
+	c.Notes = append(c.Notes, fmt.Sprintf("SER-4 library/deferred call sites with an error result: %d", lib))
+}
+
+// ser4DiscardOK: callees whose error result carries nothing for store/load (one symbol, one reason).
+var ser4DiscardOK = map[string]string{
+	"(*strings.Builder).WriteString": "documented to always return a nil error",
+	"(*strings.Builder).WriteByte":   "documented to always return a nil error",
+	"(*strings.Builder).WriteRune":   "documented to always return a nil error",
+	"(*strings.Builder).Write":       "documented to always return a nil error",
+	"(*bytes.Buffer).Write":          "documented to always return a nil error (panics with ErrTooLarge)",
+	"(*bytes.Buffer).WriteByte":      "documented to always return a nil error",
+	"(*bytes.Buffer).WriteString":    "documented to always return a nil error",
+	"(*bytes.Buffer).WriteRune":      "documented to always return a nil error",
 }
 
 // ---------- SER-5 ----------
